@@ -1,18 +1,24 @@
 (* Props/C20.v — phase-diagram sampling lies on the coupling simplex; parallel map equals serial.
-   Models: coq/Model/Sampling.v (exact rationals) and coq/Model/ParMap.v (mpire's map on a numpy array as read
-   from its source + koala's computation wrapper + the final transpose).
+   Models: coq/Model/Sampling.v (exact rationals), coq/Model/ParMap.v (mpire's map on a numpy array as read
+   from its source + koala's computation wrapper + the final transpose) and coq/Model/PhaseDiagram.v
+   (compute_phase_diagram end to end for scalar-, vector- and matrix-valued functions; the plot transforms).
 
    NOT covered by a theorem (S / K only, see harness/c20.py):
-     * "each accompanying triangulation has exactly one node per sampling point": matplotlib.tri.Triangulation
-       (Qhull) is outside the model; node counts are checked on the implementation for samples 2..40;
+     * "each accompanying triangulation has exactly one node per sampling point": the point lists HANDED TO
+       matplotlib.tri.Triangulation are modelled exactly (Model/PhaseDiagram.v: skew, reflection, three rotations,
+       second coordinate in units of sin(pi/3)) and C20_nodes_match / C20_plot_* are about them; what Triangulation
+       (Qhull) does with the list is outside the model; node counts and node positions are checked on the
+       implementation for samples 2..40 (S) and compared with the model's rationals (K);
+     * sin(pi/3), cos(pi/3), tan(pi/6) as floats: the model uses cos(pi/3) = 1/2 and sqrt(3)/2 as a unit (K tolerance 1e-12);
      * float rounding of linspace / 1 - x - y (S: 4 ulp; K: implementation floats vs the model's rationals, 1 ulp);
      * that mpire's pool delivers the result of every task exactly once: hypothesis
        [pool_delivers_each_result_once] (Section variable contract), exercised on the implementation with
        n_jobs in 1..16 and skewed per-point cost;
      * mpire's float carry arithmetic for the chunk sizes: the theorems hold for EVERY sequence of ceil values
        ([..._any_carry]) and for the exact rational carry; K compares the chunk boundaries with mpire's. *)
-From Coq Require Import List ZArith QArith Bool Arith Permutation.
-From Koala Require Import Model.Sampling Model.ParMap Proofs.SamplingFacts Proofs.ParMapFacts.
+From Coq Require Import List ZArith QArith Bool Arith Permutation Sorted.
+From Koala Require Import Model.Sampling Model.ParMap Model.PhaseDiagram Proofs.SamplingFacts Proofs.ParMapFacts
+  Proofs.SamplingCount Proofs.PhaseDiagramFacts.
 Import ListNotations.
 
 (* clause "all sampling points returned are valid coupling triples (non-negative components summing to 1)",
@@ -128,6 +134,190 @@ Theorem C20_transpose_entry : forall (C : Type) (d : nat) (rows : list (list C))
 Proof. exact @transpose_entry. Qed.
 Print Assumptions C20_transpose_entry.
 
+(* ================================================================== compute_phase_diagram END TO END
+   (Model/PhaseDiagram.v: chunk size as coded -> pool.map -> np.concatenate -> .T -> returned array) *)
+
+(* scalar-valued function: the call returns, the array has one entry per point, entry i is f(point i) —
+   every list of points, every n_jobs, every completion order *)
+Theorem C20_returned_entry_scalar : forall (A C : Type)
+    (pool : (list A -> list C) -> list (nat * list A) -> list (nat * list C)),
+  (forall g tasks, Permutation (pool g tasks) (map (fun t => (fst t, g (snd t))) tasks)) ->
+  forall (f : A -> C) (n_jobs : positive) (xs : list A),
+  exists data, cpd_scalar f pool n_jobs xs = Some data /\ length data = length xs /\
+    forall i x, nth_error xs i = Some x -> nth_error data i = Some (f x).
+Proof. exact @cpd_scalar_entry. Qed.
+Print Assumptions C20_returned_entry_scalar.
+
+(* vector-valued function of EVERY length d: the returned array has shape (d, n) and data[j][i] = f(point i)[j] *)
+Theorem C20_returned_entry_vector : forall (A C : Type)
+    (pool : (list A -> list (list C)) -> list (nat * list A) -> list (nat * list (list C))),
+  (forall g tasks, Permutation (pool g tasks) (map (fun t => (fst t, g (snd t))) tasks)) ->
+  forall (d : nat) (f : A -> list C) (n_jobs : positive) (xs : list A),
+  xs <> [] -> (forall x, In x xs -> length (f x) = d) ->
+  exists data, cpd_vector f pool n_jobs xs = Some data /\ length data = d /\
+    (forall col, In col data -> length col = length xs) /\
+    (forall i j x c, nth_error xs i = Some x -> nth_error (f x) j = Some c ->
+       exists col, nth_error data j = Some col /\ nth_error col i = Some c).
+Proof. exact @cpd_vector_entry. Qed.
+Print Assumptions C20_returned_entry_vector.
+
+(* matrix-valued function (a x b, every a >= 1 and b): .T reverses ALL axes — shape (b, a, n) and
+   data[k][j][i] = f(point i)[j][k] *)
+Theorem C20_returned_entry_matrix : forall (A C : Type)
+    (pool : (list A -> list (list (list C))) -> list (nat * list A) -> list (nat * list (list (list C)))),
+  (forall g tasks, Permutation (pool g tasks) (map (fun t => (fst t, g (snd t))) tasks)) ->
+  forall (a b : nat) (f : A -> list (list C)) (n_jobs : positive) (xs : list A),
+  xs <> [] -> (0 < a)%nat -> (forall x, In x xs -> length (f x) = a /\ forall r, In r (f x) -> length r = b) ->
+  exists data, cpd_matrix f pool n_jobs xs = Some data /\ length data = b /\
+    (forall plane, In plane data -> length plane = a /\ forall col, In col plane -> length col = length xs) /\
+    (forall i j k x r c, nth_error xs i = Some x -> nth_error (f x) j = Some r -> nth_error r k = Some c ->
+       exists plane col, nth_error data k = Some plane /\ nth_error plane j = Some col /\ nth_error col i = Some c).
+Proof. exact @cpd_matrix_entry. Qed.
+Print Assumptions C20_returned_entry_matrix.
+
+(* no point is dropped or evaluated twice: the chunks handed to the workers concatenate to the point list, no
+   chunk is empty or longer than the chunk size; with the points named 0..n-1 every name is evaluated exactly
+   once and nothing else is evaluated *)
+Theorem C20_chunks_as_coded : forall (A : Type) (n_jobs : positive) (xs : list A),
+  concat (koala_chunks n_jobs xs) = xs /\
+  forall ch, In ch (koala_chunks n_jobs xs) -> (1 <= length ch <= koala_chunk_size (length xs) n_jobs)%nat.
+Proof. exact @chunks_as_coded. Qed.
+Print Assumptions C20_chunks_as_coded.
+
+Theorem C20_every_point_evaluated_exactly_once : forall (n : nat) (n_jobs : positive) (i : nat),
+  ((i < n)%nat -> count_occ Nat.eq_dec (evaluated_points n_jobs (seq 0 n)) i = 1%nat) /\
+  ((n <= i)%nat -> count_occ Nat.eq_dec (evaluated_points n_jobs (seq 0 n)) i = 0%nat).
+Proof. exact evaluated_exactly_once. Qed.
+Print Assumptions C20_every_point_evaluated_exactly_once.
+
+(* positional form: point i is evaluated by task number i div chunk_size, at offset i mod chunk_size *)
+Theorem C20_chunk_of_point : forall (A : Type) (n_jobs : positive) (xs : list A) (i : nat) (x : A),
+  nth_error xs i = Some x ->
+  exists ch, nth_error (koala_chunks n_jobs xs) (i / koala_chunk_size (length xs) n_jobs) = Some ch /\
+             nth_error ch (i mod koala_chunk_size (length xs) n_jobs) = Some x.
+Proof. exact @koala_chunk_of_point. Qed.
+Print Assumptions C20_chunk_of_point.
+
+(* sampling points -> parallel map -> returned array, both schemes, with the closed-form lengths *)
+Theorem C20_phase_diagram_plain : forall (C : Type)
+    (pool : (list (Q * Q * Q) -> list C) -> list (nat * list (Q * Q * Q)) -> list (nat * list C)),
+  (forall g tasks, Permutation (pool g tasks) (map (fun t => (fst t, g (snd t))) tasks)) ->
+  forall (s : nat) (f : Q * Q * Q -> C) (n_jobs : positive), (2 <= s)%nat ->
+  exists data, cpd_scalar f pool n_jobs (nonsym_triples s) = Some data /\ length data = (s * s)%nat /\
+    forall i t, nth_error (nonsym_triples s) i = Some t -> nth_error data i = Some (f t).
+Proof. exact @phase_diagram_plain. Qed.
+Print Assumptions C20_phase_diagram_plain.
+
+Theorem C20_phase_diagram_symmetric : forall (C : Type)
+    (pool : (list (Q * Q * Q) -> list C) -> list (nat * list (Q * Q * Q)) -> list (nat * list C)),
+  (forall g tasks, Permutation (pool g tasks) (map (fun t => (fst t, g (snd t))) tasks)) ->
+  forall (s : nat) (f : Q * Q * Q -> C) (n_jobs : positive), (2 <= s)%nat ->
+  exists data, cpd_scalar f pool n_jobs (sym_triples s) = Some data /\ length data = ((s * s + s + 1) / 3 + 1)%nat /\
+    forall i t, nth_error (sym_triples s) i = Some t -> nth_error data i = Some (f t).
+Proof. exact @phase_diagram_symmetric. Qed.
+Print Assumptions C20_phase_diagram_symmetric.
+
+(* ================================================================== sampling points: COUNT, ORDER, DISTINCTNESS
+   for every samples >= 2 (Proofs/SamplingCount.v) *)
+
+(* closed-form number of sampling points: samples^2 for the plain scheme (the filter xs + ys <= 1 removes
+   nothing), (samples^2 + samples + 1) div 3 grid points + the appended centre for the symmetric scheme *)
+Theorem C20_point_count_plain : forall s, (2 <= s)%nat -> length (nonsym_triples s) = (s * s)%nat.
+Proof. exact nonsym_count. Qed.
+Print Assumptions C20_point_count_plain.
+
+Theorem C20_point_count_symmetric : forall s, (2 <= s)%nat -> length (sym_triples s) = ((s * s + s + 1) / 3 + 1)%nat.
+Proof. exact sym_count. Qed.
+Print Assumptions C20_point_count_symmetric.
+
+(* the grid part of the symmetric scheme is exactly the sixth Jx <= Jy <= Jz of the grid (integer form of the
+   two float-looking thresholds -grid_spacing/2) *)
+Theorem C20_symmetric_grid_points_explicit : forall s p, (2 <= s)%nat ->
+  (In p (filter (sym_keep s) (grid s)) <->
+   exists i j, p = ((Z.of_nat i # Pos.of_nat (2 * (s - 1)))%Q, (Z.of_nat j # Pos.of_nat (2 * (s - 1)))%Q) /\
+               (i <= j /\ i + 2 * j <= 2 * (s - 1))%nat).
+Proof. exact sym_grid_points_explicit. Qed.
+Print Assumptions C20_symmetric_grid_points_explicit.
+
+(* order and distinctness, plain scheme: the points are strictly increasing in (Jy, Jx) — position a < b implies
+   point a before point b — hence pairwise distinct as rationals *)
+Theorem C20_plain_points_increasing_distinct : forall s a b p q, (a < b)%nat ->
+  nth_error (nonsym_points s) a = Some p -> nth_error (nonsym_points s) b = Some q ->
+  (snd p < snd q \/ (snd p == snd q /\ fst p < fst q))%Q /\ ~ (fst p == fst q /\ snd p == snd q)%Q.
+Proof. exact nonsym_points_distinct. Qed.
+Print Assumptions C20_plain_points_increasing_distinct.
+
+(* symmetric scheme: the returned list is the strictly increasing (hence duplicate-free) grid part followed by the
+   centre, and the centre repeats a grid point exactly when samples = 1 (mod 3) — so the symmetric sampling points
+   are pairwise distinct iff samples <> 1 (mod 3) (the default samples = 10 has the duplicate) *)
+Theorem C20_symmetric_points_order_and_duplicate : forall s, (2 <= s)%nat ->
+  sym_points s = filter (sym_keep s) (grid s) ++ [centre] /\
+  StronglySorted (fun p q => snd p < snd q \/ (snd p == snd q /\ fst p < fst q))%Q (filter (sym_keep s) (grid s)) /\
+  ((exists p, In p (filter (sym_keep s) (grid s)) /\ (fst p == 1 # 3)%Q /\ (snd p == 1 # 3)%Q) <-> (s mod 3 = 1)%nat) /\
+  (centre_in_grid s = true <-> (s mod 3 = 1)%nat).
+Proof. exact sym_points_order_and_duplicate. Qed.
+Print Assumptions C20_symmetric_points_order_and_duplicate.
+
+(* the complete distinctness statement: the symmetric sampling points are pairwise distinct (as rationals)
+   exactly when samples <> 1 (mod 3) *)
+Theorem C20_symmetric_points_pairwise_distinct_iff : forall s, (2 <= s)%nat ->
+  ((forall a b p q, (a < b)%nat -> nth_error (sym_points s) a = Some p -> nth_error (sym_points s) b = Some q ->
+      ~ (fst p == fst q /\ snd p == snd q)%Q) <-> (s mod 3 <> 1)%nat).
+Proof. exact sym_points_pairwise_distinct_iff. Qed.
+Print Assumptions C20_symmetric_points_pairwise_distinct_iff.
+
+(* why float rounding cannot flip the symmetric filter: on the grid z - y and y - x are either >= 0 or
+   <= -1/(2(s-1)), and the code's threshold -grid_spacing/2 = -1/(2s) lies strictly between the two *)
+Theorem C20_symmetric_filter_margin : forall s p, (2 <= s)%nat -> In p (grid s) ->
+  let x := fst p in let y := snd p in let z := (1 - x - y)%Q in
+  ((0 <= z - y \/ z - y <= - (1 # Pos.of_nat (2 * (s - 1)))) /\ (0 <= y - x \/ y - x <= - (1 # Pos.of_nat (2 * (s - 1)))) /\
+   - (1 # Pos.of_nat (2 * (s - 1))) < - grid_spacing s / 2 /\ - grid_spacing s / 2 < 0)%Q.
+Proof. exact sym_filter_margin. Qed.
+Print Assumptions C20_symmetric_filter_margin.
+
+(* ================================================================== barycentric -> cartesian (plot transforms), exact
+   rationals; second cartesian coordinate in units of sin(pi/3) (Model/PhaseDiagram.v) *)
+
+(* the skew IS the barycentric -> cartesian map with corners (1,0), (1/2, sin), (0,0), and each of the six point
+   lists of the symmetric scheme is that map applied to a coordinate permutation of the triples (rotations =
+   cyclic shifts, reflection = Jx <-> Jy) *)
+Theorem C20_plot_transform_is_coordinate_permutation : forall (reflect : bool) (i : nat) (p : Q * Q),
+  (fst (skew p) == fst (bary_to_cart (triple p)) /\ snd (skew p) == snd (bary_to_cart (triple p)))%Q /\
+  (fst (plot_transform reflect i p) == fst (bary_to_cart (permute_triple reflect i (triple p))) /\
+   snd (plot_transform reflect i p) == snd (bary_to_cart (permute_triple reflect i (triple p))))%Q.
+Proof. exact transforms_are_coordinate_permutations. Qed.
+Print Assumptions C20_plot_transform_is_coordinate_permutation.
+
+(* every node drawn for a valid coupling triple lies in the triangle, all six transforms preserve distances
+   ("six congruent images") and are injective (distinct points -> distinct nodes) *)
+Theorem C20_plot_nodes_in_triangle : forall (reflect : bool) (i : nat) (p : Q * Q),
+  (0 <= fst p /\ 0 <= snd p /\ 0 <= 1 - fst p - snd p /\ fst p + snd p + (1 - fst p - snd p) == 1)%Q ->
+  let q := plot_transform reflect i p in
+  (0 <= snd q /\ snd q * (1 # 2) <= fst q /\ fst q <= 1 - snd q * (1 # 2))%Q.
+Proof. exact nodes_in_triangle. Qed.
+Print Assumptions C20_plot_nodes_in_triangle.
+
+Theorem C20_plot_transform_isometry_injective : forall (reflect : bool) (i : nat) (p q : Q * Q),
+  (dist2 (plot_transform reflect i p) (plot_transform reflect i q) == dist2 (skew p) (skew q))%Q /\
+  ((fst (plot_transform reflect i p) == fst (plot_transform reflect i q) /\
+    snd (plot_transform reflect i p) == snd (plot_transform reflect i q))%Q -> (fst p == fst q /\ snd p == snd q)%Q).
+Proof. exact transforms_isometric_injective. Qed.
+Print Assumptions C20_plot_transform_isometry_injective.
+
+(* "each accompanying triangulation has exactly one node per sampling point" for the point lists handed to
+   mtri.Triangulation (what Qhull does with them stays outside): one list for the plain scheme, six for the
+   symmetric scheme in the order of the two loops, each of the length of the returned triples, node k = image of point k *)
+Theorem C20_nodes_match : forall s,
+  (length (nonsym_nodes s) = length (nonsym_triples s) /\
+   forall k p, nth_error (nonsym_points s) k = Some p ->
+     nth_error (nonsym_nodes s) k = Some (skew p) /\ nth_error (nonsym_triples s) k = Some (triple p)) /\
+  (sym_nodes s = map (fun ri => map (plot_transform (fst ri) (snd ri)) (sym_points s))
+                     [(false, 0); (false, 1); (false, 2); (true, 0); (true, 1); (true, 2)]%nat /\
+   length (sym_nodes s) = 6%nat /\
+   forall nodes, In nodes (sym_nodes s) -> length nodes = length (sym_triples s)).
+Proof. exact nodes_match. Qed.
+Print Assumptions C20_nodes_match.
+
 (* ------------------------------------------------------------------ non-vacuity *)
 Example C20_sampling_nonvacuous :
   length (nonsym_triples 4) = 16%nat /\ length (sym_triples 4) = 8%nat /\
@@ -154,4 +344,24 @@ Proof. intros. apply schedule_pool_contract. apply Permutation_sym, Permutation_
 (* observation (not claimed by the property): for samples = 1 (mod 3) the grid already contains (1/3, 1/3), so the
    appended centre point is a duplicate sampling point *)
 Example C20_centre_duplicated_at_4 : centre_in_grid 4 = true /\ centre_in_grid 5 = false.
+Proof. vm_compute. split; reflexivity. Qed.
+
+(* the new hypotheses are inhabited and the closed forms are what the model computes *)
+Example C20_counts_nonvacuous :
+  map (fun s => length (sym_triples s)) [2; 3; 4; 5; 10; 20]%nat = [3; 5; 8; 11; 38; 141]%nat /\
+  map (fun s => ((s * s + s + 1) / 3 + 1)%nat) [2; 3; 4; 5; 10; 20]%nat = [3; 5; 8; 11; 38; 141]%nat.
+Proof. vm_compute. split; reflexivity. Qed.
+
+Example C20_end_to_end_nonvacuous :
+  let pool := fun (g : list nat -> list (list nat)) tasks => schedule_pool g (rev (seq 0 (length tasks))) tasks in
+  cpd_vector (fun x => [x; 10 * x; 7]%nat) pool 2 [1; 2; 3; 4; 5; 6; 7; 8; 9]%nat
+    = Some [[1; 2; 3; 4; 5; 6; 7; 8; 9]; [10; 20; 30; 40; 50; 60; 70; 80; 90]; [7; 7; 7; 7; 7; 7; 7; 7; 7]]%nat /\
+  koala_chunks 2 [1; 2; 3; 4; 5; 6; 7; 8; 9]%nat = [[1; 2]; [3; 4]; [5; 6]; [7; 8]; [9]]%nat /\
+  cpd_matrix (fun x => [[x; 2 * x; 3 * x]; [0; 1; x]]%nat) (fun g tasks => schedule_pool g (rev (seq 0 (length tasks))) tasks) 1 [1; 2]%nat
+    = Some [[[1; 2]; [0; 0]]; [[2; 4]; [1; 1]]; [[3; 6]; [1; 2]]]%nat.
+Proof. vm_compute. repeat split; reflexivity. Qed.
+
+Example C20_plot_transform_nonvacuous :
+  Qeq_bool (fst (plot_transform false 1 ((1 # 2)%Q, 0%Q))) (1 # 4)%Q && Qeq_bool (snd (plot_transform false 1 ((1 # 2)%Q, 0%Q))) (1 # 2)%Q = true /\
+  on_simplex (triple ((1 # 2)%Q, 0%Q)) = true.
 Proof. vm_compute. split; reflexivity. Qed.
